@@ -212,7 +212,7 @@ impl Prop for C10 {
                     Case { ty, spec, flags, lll_trans } })
         }).boxed()
     }
-    fn cases(tier: Tier) -> u32 { tier.pick(150_000, 3_000_000) }
+    fn cases(tier: Tier) -> u32 { tier.pick(150_000, 500_000) }
     fn shards(_: Tier) -> usize { 16 }
     fn fuzz_in_domain(c: &Case) -> bool { let (bits, deg) = c.spec.size(); bits <= 700 && deg <= 4 }
     fn run(case: &Case, ctx: &Ctx) -> Outcome { to_outcome(run_case(case, ctx.tier)) }
